@@ -1,5 +1,6 @@
 use anyhow::Result;
 use anyhow::bail;
+use log::debug;
 use tokio_util::bytes::Buf;
 use tokio_util::bytes::BytesMut;
 use tokio_util::codec::Decoder;
@@ -155,15 +156,22 @@ impl Decoder for Socks5UdpCodec {
         if src.is_empty() {
             return Ok(None);
         }
-        if src.remaining() < 5 {
-            bail!("Insufficient length of packet");
-        }
-        if src[2] != 0 {
-            bail!("Discarding fragmented payload");
+        // a datagram that is not a complete unfragmented request is dropped: it must be consumed,
+        // otherwise UdpFramed presents the same bytes again forever
+        if src.remaining() < 5 || src[2] != 0 {
+            debug!("Discarding short or fragmented packet; len={}", src.remaining());
+            src.clear();
+            return Ok(None);
         }
         src.advance(3);
-        let recipient = address::decode(src)?;
-        Ok(Some((src.split_off(0), recipient)))
+        match address::decode(src) {
+            Ok(recipient) => Ok(Some((src.split_off(0), recipient))),
+            Err(e) => {
+                debug!("Discarding malformed packet; error={}", e);
+                src.clear();
+                Ok(None)
+            }
+        }
     }
 }
 
